@@ -18,7 +18,7 @@ const pkgEsWriter = "pkg/es/writer"
 func checkC15(c *core.Ctx, r *core.Report) {
 	r.Explanation = "C15 (bulk ingest acknowledges exactly what it stored), loop discipline and error flow of HandleBulkBody only: " +
 		"(1) LIVE — no value that decides an item's status (the conditions controlling which response item is stored) is carried over unchanged from the previous loop iteration (no sticky flags); " +
-		"(2) one response item per action — every trip around the action loop stores an element of the items slice; " +
+		"(2) one response item per action — every trip around the action loop stores an element of the items slice; once an action is counted its slot is written before the loop goes on or ends; every item store goes into a slot derived from the per-action counter (directly or remembered per event in a local map); " +
 		"(3) every branch that stores a failure item makes the `errors` flag true; " +
 		"(4) a failure of the store call (ProcessIndexRequestPle) influences the response (items, errors flag or the returned error), not only the log; " +
 		"(5) the record-size gate dominates the parsing of a document (GetNewPLE); " +
@@ -151,6 +151,129 @@ func checkC15(c *core.Ctx, r *core.Report) {
 		})
 		// the loop's own exit test may sit in the header or in the first body block: a trip that leaves the loop is not an action
 		r.Check(!skipped, "PAIR", name+":one-response-item-per-action", c.Pos(loop.Header.Instrs[0].Pos()), "every trip around the action loop stores an element of items", "a path around the action loop stores no response item: the response has fewer items than the request has actions, or a stale item from a previous request (the slice comes from a pool)")
+	}
+
+	// ---------------------------------------------------------------- (2b) the item of an action goes into the action's own slot
+	{
+		// the action counter: the loop-carried integer whose increment (minus one) indexes the item stores of the loop
+		var counter *ssa.Phi
+		var incr *ssa.BinOp
+		votes := map[*ssa.Phi]int{}
+		incrOf := map[*ssa.Phi]*ssa.BinOp{}
+		for _, s := range stores {
+			if !loop.Body[s.st.Block()] {
+				continue
+			}
+			idx := s.st.Addr.(*ssa.IndexAddr).Index
+			if bo, ok := idx.(*ssa.BinOp); ok && bo.Op == token.SUB {
+				idx = bo.X
+			}
+			if bo, ok := idx.(*ssa.BinOp); ok && bo.Op == token.ADD {
+				if phi, ok := bo.X.(*ssa.Phi); ok && phi.Block() == loop.Header {
+					votes[phi]++
+					incrOf[phi] = bo
+				}
+			}
+		}
+		for phi, n := range votes {
+			if counter == nil || n > votes[counter] {
+				counter, incr = phi, incrOf[phi]
+			}
+		}
+		if counter == nil {
+			r.Undecided("DEPENDS", name+":action-counter", c.Pos(fn.Pos()), "no loop-carried counter indexes the response items")
+		} else {
+			var fromCounter func(v ssa.Value, depth int) bool
+			fromCounter = func(v ssa.Value, depth int) bool {
+				if depth > 6 || v == nil {
+					return false
+				}
+				if v == ssa.Value(counter) || v == ssa.Value(incr) {
+					return true
+				}
+				switch x := v.(type) {
+				case *ssa.BinOp:
+					if _, isK := x.Y.(*ssa.Const); isK && (x.Op == token.SUB || x.Op == token.ADD) {
+						return fromCounter(x.X, depth+1)
+					}
+				case *ssa.Convert:
+					return fromCounter(x.X, depth+1)
+				case *ssa.Phi:
+					if len(x.Edges) == 0 {
+						return false
+					}
+					for _, e := range x.Edges {
+						if !fromCounter(e, depth+1) {
+							return false
+						}
+					}
+					return true
+				case *ssa.Extract:
+					return fromCounter(x.Tuple, depth+1)
+				case *ssa.Lookup:
+					// a slot remembered in a local map: every value put into the map must be a slot of the counter
+					mm, ok := x.X.(*ssa.MakeMap)
+					if !ok {
+						return false
+					}
+					n := 0
+					if refs := mm.Referrers(); refs != nil {
+						for _, rf := range *refs {
+							if mu, ok := rf.(*ssa.MapUpdate); ok && mu.Map == ssa.Value(mm) {
+								n++
+								if !fromCounter(mu.Value, depth+1) {
+									return false
+								}
+							}
+						}
+					}
+					return n > 0
+				}
+				return false
+			}
+			for i, s := range stores {
+				idx := s.st.Addr.(*ssa.IndexAddr).Index
+				r.Check(fromCounter(idx, 0), "DEPENDS", fmt.Sprintf("%s:item-store#%d-goes-into-the-action's-own-slot", name, i+1), c.Pos(s.st.Pos()),
+					"the slot is the action counter minus one (directly or remembered per event)",
+					"a response item is stored into a slot that is not derived from the per-action counter (another counter skips deletes, updates and rejected documents): the status lands on a different action's item, so a stored document is reported failed and the failed one keeps its 201")
+			}
+			// once an action is counted its slot is written before the loop goes on or ends
+			var leak ssa.Instruction
+			isSlotStore := map[ssa.Instruction]bool{}
+			for _, s := range stores {
+				if fromCounter(s.st.Addr.(*ssa.IndexAddr).Index, 0) {
+					isSlotStore[s.st] = true
+				}
+			}
+			core.WalkForwardEdges(fn, incr, func(in ssa.Instruction) bool {
+				if isSlotStore[in] {
+					return false
+				}
+				return true
+			}, func(from, to *ssa.BasicBlock) bool {
+				if !loop.Body[from] {
+					return false
+				}
+				if to == loop.Header || !loop.Body[to] {
+					// leaving by a return that reports an error is not an acknowledged action
+					if len(to.Instrs) > 0 {
+						if ret, ok := to.Instrs[len(to.Instrs)-1].(*ssa.Return); ok && !loop.Body[to] && core.ReturnSuccess(ret) == core.No {
+							return false
+						}
+					}
+					if leak == nil {
+						leak = from.Instrs[len(from.Instrs)-1]
+					}
+					return false
+				}
+				return true
+			})
+			if leak != nil {
+				r.Violation("PAIR", name+":counted-action-gets-its-item", c.Pos(leak.Pos()), "after an action has been counted the loop can be left or repeated without writing that action's response item: the slot keeps whatever an earlier request left in the pooled slice (normally a 201), so an action that was not processed is acknowledged as created and `errors` stays false")
+			} else {
+				r.OK("PAIR", name+":counted-action-gets-its-item", c.Pos(incr.Pos()), "every path from the increment of the action counter writes the action's slot before the next action or the end of the loop")
+			}
+		}
 	}
 
 	// ---------------------------------------------------------------- (3) failure item => errors flag
@@ -347,46 +470,60 @@ func loopCarried(v ssa.Value, loop *core.Loop, seen map[ssa.Value]bool, depth in
 // failureSetsFlag: on the path that continues from the failure store to the next
 // iteration, the errors-flag phi web receives the constant true.
 func failureSetsFlag(st *ssa.Store, web map[ssa.Value]bool, loop *core.Loop) (bool, string) {
-	b := st.Block()
-	prev := b
-	for i := 0; i < 8; i++ {
-		if len(b.Succs) != 1 && b != st.Block() {
-			break
-		}
+	// An assignment `flag = true` is not an instruction in SSA: it shows as the constant true on the edge into
+	// the next join that merges the flag.  Follow every path from the store to its first such join.
+	type edge struct{ from, to *ssa.BasicBlock }
+	seen := map[*ssa.BasicBlock]bool{}
+	work := []*ssa.BasicBlock{st.Block()}
+	seen[st.Block()] = true
+	checked := 0
+	for len(work) > 0 {
+		b := work[len(work)-1]
+		work = work[:len(work)-1]
 		if len(b.Succs) == 0 {
-			break
+			return false, "a path from this store leaves the function before the errors flag is merged"
 		}
-		next := b.Succs[0]
-		for _, in := range next.Instrs {
-			p, ok := in.(*ssa.Phi)
-			if !ok || !web[p] {
+		for _, next := range b.Succs {
+			var phi *ssa.Phi
+			for _, in := range next.Instrs {
+				p, ok := in.(*ssa.Phi)
+				if !ok {
+					break
+				}
+				if web[p] {
+					phi = p
+				}
+			}
+			if phi == nil {
+				if !seen[next] {
+					seen[next] = true
+					work = append(work, next)
+				}
 				continue
 			}
 			for j, pred := range next.Preds {
 				if pred != b {
 					continue
 				}
-				e := p.Edges[j]
+				checked++
+				e := phi.Edges[j]
 				if k, ok := e.(*ssa.Const); ok && k.Value != nil {
 					if k.Value.String() == "true" {
-						return true, "the errors flag receives true on the edge leaving this branch"
+						continue
 					}
-					return false, "the errors flag receives false on the edge leaving this branch"
+					return false, "the errors flag receives false on an edge leaving this branch"
 				}
 				if web[e] {
-					return false, "the errors flag keeps its previous value on the edge leaving this branch"
+					return false, "the errors flag keeps its previous value on an edge leaving this branch"
 				}
-				return false, "the value assigned to the errors flag on this edge is not the constant true"
+				return false, "the value assigned to the errors flag on an edge leaving this branch is not the constant true"
 			}
 		}
-		prev = b
-		b = next
-		if b == loop.Header {
-			break
-		}
 	}
-	_ = prev
-	return false, "no assignment of the errors flag follows this store before the next action (the flag is not a boolean that is set to true in the failure branches)"
+	if checked == 0 {
+		return false, "no assignment of the errors flag follows this store (the flag is not a boolean that is set to true in the failure branches)"
+	}
+	return true, "the errors flag receives true on every edge from this branch into the next merge of the flag"
 }
 
 func feedsReturnOrResponse(p *ssa.Phi) bool {
